@@ -247,7 +247,10 @@ def fit(x, p):
     use_compressed = clen < n
     size = (clen + 8) if use_compressed else n
     x.out('raised', raised is not None)
-    if size > 0x3d00:
+    if size > 0x3d00 or n > 0xffff:
+        # (the header stores the code length in two bytes, and PICO-8 does
+        # not run more than 65535 characters: a longer code does not fit
+        # however well it compresses)
         x.check('code that does not fit is refused with an error',
                 raised is not None)
         return
@@ -393,10 +396,12 @@ HARNESSES = [
     Harness('fit', fit,
             quick=[dict(Q, n=n, clen=c) for n, c in (
                 (0x3cff, 0x3d00), (0x3d00, 0x3d01), (0x3d01, 0x3d02),
-                (0x4000, 0x3d00 - 8), (0x4000, 0x3d00 - 7), (40, 10))],
+                (0x4000, 0x3d00 - 8), (0x4000, 0x3d00 - 7), (40, 10),
+                (0xffff, 100), (0x10000, 100), (0x101d0, 0x3d00 - 8))],
             thorough=[dict(Q, n=n, clen=c) for n, c in (
                 (0x3cff, 0x3d00), (0x3d00, 0x3d01), (0x3d01, 0x3d02),
                 (0x10000, 0x10001), (0x4000, 0x3d00 - 8),
                 (0x4000, 0x3d00 - 7), (0xffff, 0x3d00 - 8), (40, 10),
-                (2, 3))]),
+                (2, 3), (0xffff, 100), (0x10000, 100), (0x10001, 3),
+                (0x101d0, 0x3d00 - 8), (0x20000, 0x100))]),
 ]
